@@ -29,7 +29,7 @@ PROPS["C15"] = {
             "latencymonitor.crc16, external redis.GetSlot vs the bitwise specification. chose: real ChoseSlotInRange on single-slot ranges (2/3 of "
             "the sample), random and boundary ranges, ranges outside the quantifier and foreign prefixes, with FilterKey of the result under three "
             "configurations. filter: FilterKey on checkpoint-like keys x black/white lists. fslot: FilterSlot(KeyToSlot(key)) as in syncRDB. "
-            "latency: real findKeyInRange on single-slot and random ranges. non-trivial = every case except the empty key; distinct by case text",
+            "latency: real findKeyInRange on random ranges and on the single-slot ranges with the longest searches (the 24 slots whose first witness lies furthest out, plus a sample of the next 200). non-trivial = every case except the empty key; distinct by case text",
     "nontrivial": _nontrivial,
     "trusted": ["external module github.com/vinllen/redis-go-cluster (GetSlot) is modelled by the specification slotSpec and compared on every slot case",
                 "Go: `for i, s := range string` decodes UTF-8 as unicode/utf8.DecodeRuneInString does (transcribed in Model/Slot.lean decodeRune)",
